@@ -366,3 +366,36 @@ Definition goes_home (k : homekey) (proxy_conn out_conn : conn) : bool :=
 
 Definition slice_proxy (proxy_conn out_conn : conn) (clid furl : Z) : wire :=
   if goes_home yourref_homekey proxy_conn out_conn then WYourRef clid else WTheirRef furl.
+
+(* ---------------------------------------------------------------- util.AsyncAND (C08, gifts inside containers)
+   A container (list, dict, set, tuple, argument list) that holds gifts is handed to the application when the AsyncAND of
+   its children's ready-Deferreds fires.  An input is either already fired when AsyncAND subscribes to it (its callback
+   then runs synchronously inside addCallbacks) or still pending.  HOW the inputs are counted is read from the source. *)
+Record aand := { aa_remaining : Z; aa_fired : bool }.
+
+Definition aand_cb (s : aand) : aand :=            (* _cbDeferred(result, succeeded=True) *)
+  {| aa_remaining := aa_remaining s - 1; aa_fired := aa_fired s || (aa_remaining s - 1 =? 0) |}.
+
+Fixpoint aand_subscribe (k : andinit) (s : aand) (inputs : list bool) : aand :=
+  match inputs with
+  | [] => s
+  | fired :: r =>
+    let s1 := match k with
+              | CountWhileSubscribing => {| aa_remaining := aa_remaining s + 1; aa_fired := aa_fired s |}
+              | CountBeforeSubscribing => s
+              end in
+    aand_subscribe k (if fired then aand_cb s1 else s1) r
+  end.
+
+Definition aand_new (k : andinit) (inputs : list bool) : aand :=
+  match inputs with
+  | [] => {| aa_remaining := 0; aa_fired := true |}        (* nothing to wait for *)
+  | _ => aand_subscribe k {| aa_remaining := match k with CountBeforeSubscribing => Z.of_nat (List.length inputs)
+                                                       | CountWhileSubscribing => 0 end;
+                             aa_fired := false |} inputs
+  end.
+
+Fixpoint aand_complete (s : aand) (j : nat) : aand :=   (* j of the pending inputs fire later *)
+  match j with O => s | S j' => aand_complete (aand_cb s) j' end.
+
+Definition npending (inputs : list bool) : nat := List.length (filter negb inputs).
